@@ -3,13 +3,18 @@ import itertools
 import wire
 from wire import mk_fmt, cells
 from props.common import guarded, canon_cells_list, reply_fmt_list, PALETTE
-from props.widthenv import ALPHA3, wc, env_fields, text_of, cut_layouts, self_check
+from props.widthenv import (ALPHA3, wc, env_fields, text_of, cut_layouts, self_check, realize, shared_variants,
+                            shared_case_fields, pool_size, pool_object, safe_oracle, safe_impl)
 from curtsies.formatstring import Chunk
 
 PROP = "C11"
 MODULES = ["Curtsies.Properties.C11"]
 RULE = ("exhaustive: every string of length <=6 (thorough: <=7) over {narrow 'a', wide U+FF25, combining U+0301} x run layouts (no runs, "
         "1 run, every placement of cuts incl. empty runs and runs ending exactly at a line boundary) x columns 2..4; "
+        "SHARED-IDENTITY cases: FmtStr values built through the real operations so that one Chunk object occurs at several "
+        "positions of .chunks (f*2, f*3, f+f, f+f+f, join with repeated item / repeated separator, whole-run slices "
+        "concatenated) for every string <=3 x <=1-cut layouts x columns 2..4, plus objects from random public-API programs "
+        "with interleaved observations (common.api_pool); "
         "tie-only extras: columns in {-1,0,1}, control characters, random longer strings with columns up to 7, and "
         "sequences of ChunkSplitter.request(max_width) calls incl. max_width<1. non-trivial = distinct case whose string "
         "contains a wide or combining character, or that raises")
@@ -31,7 +36,23 @@ def mk_cases(ctx):
                     cases.append(dict(op="wasplit", f=ch, columns=columns))
     ctx.exhaustive.append("C11: %d strings (len<=6 quick / 7 thorough over narrow/wide/combining) x cut layouts x columns 2..4: %d cases"
                           % (nstr, len(cases)))
+    shared = []
+    for n in range(5 if ctx.thorough else 4):
+        for tup in itertools.product(ALPHA3, repeat=n):
+            s = "".join(tup)
+            for ch in cut_layouts(s, PALETTE, max_cuts=2 if ctx.thorough else 1):
+                for spec in shared_variants(ch, other=[(s[:1], dict(PALETTE[4]))]):
+                    fields = shared_case_fields(spec)
+                    for columns in (2, 3, 4):
+                        shared.append(dict(op="wasplit", columns=columns, **fields))
     r = ctx.rng
+    for _ in range(400 if ctx.thorough else 120):
+        seed = r.randrange(1 << 30)
+        for i in range(pool_size(seed)):
+            obj = pool_object(seed, i)
+            shared.append(dict(op="wasplit", f=wire.fmt_chunks(obj), pool=[seed, i], columns=r.choice([2, 2, 3, 4, 5])))
+    ctx.exhaustive.append("C11: %d cases on FmtStr values sharing Chunk objects by identity / built by API programs" % len(shared))
+    cases += shared
     alpha = list(ALPHA3) + ["b", " ", "\n", "語"]
     for _ in range(6000 if ctx.thorough else 1500):
         lens = [r.randint(0, 5) for _ in range(r.randint(0, 5))]
@@ -52,10 +73,10 @@ def line(c):
 
 
 def run_impl(c):
-    return list(mk_fmt(c["f"]).width_aware_splitlines(c["columns"]))
+    return list(realize(c).width_aware_splitlines(c["columns"]))
 
 
-def impl(c):
+def _impl(c):
     if c["op"] == "splitreq":
         sp = Chunk(c["s"], dict(c["atts"])).splitter()
         out = []
@@ -71,6 +92,9 @@ def impl(c):
                 out.append("%d~%s~%d~%d" % (r[0], wire.enc_chunk(r[1]), sp.internal_offset, sp.internal_width))
         return "ok [" + " ".join(out) + "]"
     return guarded(lambda: reply_fmt_list(run_impl(c)))
+
+
+impl = safe_impl(_impl)
 
 
 def canon(reply):
@@ -103,7 +127,7 @@ def reference_wrap(cs, columns):
     return lines
 
 
-def oracle(c):
+def _oracle(c):
     if c["op"] != "wasplit" or c["columns"] < 2:
         return None
     cs = wire.cells_of_chunks(c["f"])
@@ -139,6 +163,9 @@ def oracle(c):
     if flat != cs:
         return "characters lost/reordered/restyled: lines minus padding give %r, the string is %r" % (flat, cs)
     return None
+
+
+oracle = safe_oracle(_oracle)
 
 
 def footprint(c, what):
